@@ -140,14 +140,16 @@ CHECKS = {
         ],
     },
     "C19": {
-        "bounds": {"quick": "units behind `gosqlx format` and `gosqlx validate` (Formatter.Format/formatFile/formatSQL, writeFileAtomic, Validator.Validate/validateFile) on an in-memory file system of 2 files, each holding one of 8 texts (valid unformatted, valid, valid+invalid statement, parser-rejected, tokenizer-rejected, comment-only, blank, zero bytes); format: mode (print / --check / -i), --uppercase and --compact symbolic; -i under one injected fault: any of the first 16 file-system operations either returns an I/O error or kills the process, a faulty write leaving k bytes on disk for every k up to the length of the new content; exit status derived as formatRun derives it; SARIF artifact URIs: normalizeURI on every path of <= 5 bytes over {. / a b} without empty elements",
+        "bounds": {"quick": "units behind `gosqlx format` and `gosqlx validate` (Formatter.Format/formatFile/formatSQL, writeFileAtomic, Validator.Validate/validateFile) on an in-memory file system of 2 files, each holding one of 8 texts (valid unformatted, valid, valid+invalid statement, parser-rejected, tokenizer-rejected, comment-only, blank, zero bytes); format: mode (print / --check / -i), --uppercase and --compact symbolic; -i under one injected fault: any of the first 16 file-system operations either returns an I/O error or kills the process, a faulty write leaving k bytes on disk for every k up to the length of the new content; exit status derived as formatRun derives it; validate reports: FormatValidationJSON and FormatSARIF of every such run are well-formed JSON and name exactly the failing inputs (SARIF version 2.1.0, one run); SARIF artifact URIs: normalizeURI on every path of <= 5 bytes over {. / a b} without empty elements",
                    "thorough": "same with 3 files; URI paths <= 7 bytes"},
-        "outside": "the built binary, cobra flag parsing and os.Exit wiring (the exit status is recomputed from the unit's result exactly as formatRun/validateRun do); the real kernel file system (modelled: os.WriteFile truncates then writes, os.Rename is atomic, a crash loses nothing already written); lint --fix and parse commands (their write-back goes through the same writeFileAtomic helper, whose call site in lint.go is not executed); JSON/SARIF encoding (encoding/json reflection is not encodable; only the URI kernel is covered); directory/glob expansion and path security validation (stubbed to the identity); two or more faults in one run",
-        "assumptions": ["os.ReadFile/WriteFile/Stat/CreateTemp/Rename/Remove, (*os.File).Write/Chmod/Sync/Close, expandFileArgs, ValidateFileAccess and DetectAndReadInput are replaced by model functions with the documented contract (call sites rewritten in an overlay of the current sources on every run)", "the library verdict is gosqlx.Validate on the file's text"],
+        "outside": "the built binary, cobra flag parsing and os.Exit wiring (the exit status is recomputed from the unit's result exactly as formatRun/validateRun do); the real kernel file system (modelled: os.WriteFile truncates then writes, os.Rename is atomic, a crash loses nothing already written); lint --fix and parse commands (their write-back goes through the same writeFileAtomic helper, whose call site in lint.go is not executed); report fields other than well-formedness, verdict and the named inputs (messages, regions, fingerprints: SHA-256 is stubbed under the engine); parse command reports; directory/glob expansion and path security validation (stubbed to the identity); two or more faults in one run",
+        "assumptions": ["os.ReadFile/WriteFile/Stat/CreateTemp/Rename/Remove, (*os.File).Write/Chmod/Sync/Close, expandFileArgs, ValidateFileAccess and DetectAndReadInput are replaced by model functions with the documented contract (call sites rewritten in an overlay of the current sources on every run)", "the library verdict is gosqlx.Validate on the file's text", "encoding/json runs on the host through the engine's type-directed bridge on concrete values"],
         "runs": [
             {"pkg": "cmd/gosqlx/cmd", "harness": "VxC19_Format", "instantiate": C19_INST, "expect_asserts": ["C19.exit_matches_library", "C19.check_only_never_writes", "C19.inplace_writes_formatted", "C19.print_equals_inplace", "C19.check_lists_exactly"]},
             {"pkg": "cmd/gosqlx/cmd", "harness": "VxC19_InPlaceFault", "instantiate": C19_INST, "expect_asserts": ["C19.atomic_replace", "C19.write_failure_reported"]},
             {"pkg": "cmd/gosqlx/cmd", "harness": "VxC19_Validate", "instantiate": C19_INST, "expect_asserts": ["C19.validate_matches_library", "C19.validate_counts"]},
+            {"pkg": "cmd/gosqlx/cmd", "harness": "VxC19_Reports", "instantiate": C19_INST, "args": {"replace": "github.com/ajitpratap0/GoSQLX/cmd/gosqlx/internal/output.generateFingerprint=VxFingerprint"},
+             "expect_asserts": ["C19.json_report_names_failing", "C19.sarif_report_names_failing", "C19.json_report_wellformed", "C19.sarif_report_wellformed"]},
             {"pkg": "cmd/gosqlx/internal/output", "harness": "VxC19_SarifURI5", "tiers": ["quick"], "expect_asserts": ["C19.sarif_uri_names_input"]},
             {"pkg": "cmd/gosqlx/internal/output", "harness": "VxC19_SarifURI7", "tiers": ["thorough"], "expect_asserts": ["C19.sarif_uri_names_input"]},
             {"pkg": "cmd/gosqlx/cmd", "harness": "VxC19_Format3", "tiers": ["thorough"], "instantiate": C19_INST},
@@ -205,13 +207,16 @@ CHECKS = {
         ],
     },
     "C10": {
-        "bounds": {"quick": "metrics kernel: 2 goroutines, each one RecordTokenization with a symbolic query size (0..999) and symbolic error flag, every interleaving at sync/atomic and mutex granularity with at most 2 preemptions; 2 goroutines RecordParse / RecordPoolGet / RecordPoolPut with symbolic statement counts; after quiescence operations, errors, bytes, min, max, statements, pool counters and the error map equal the true values",
-                   "thorough": "3 goroutines"},
-        "outside": "REDUCED CLAIM. Not claimed: 'every call returns what it returns alone' for arbitrary mixes of tokenize/parse/format/extract/scan/lint on N goroutines and data-race freedom of the whole library under the Go memory model (schedule space and heap of whole-program concurrent runs are beyond a path-forking engine; isolation of instances is what C08/C09 establish sequentially: no mutable state flows between holders except through pools); schedules with more than 2 preemptions; ast.SetSpan's unguarded global map",
+        "bounds": {"quick": "metrics kernel: 2 goroutines, each one RecordTokenization with a symbolic query size (0..999) and symbolic error flag, every interleaving at sync/atomic and mutex granularity with at most 2 preemptions; 2 goroutines RecordParse / RecordPoolGet / RecordPoolPut with symbolic statement counts; after quiescence operations, errors, bytes, min, max, statements, pool counters and the error map equal the true values; library state: 2 goroutines each running one of {gosqlx.Parse, metrics.RecordTokenization+GetStats, errors.SuggestKeyword (suggestion cache), ast.SetSpan/GetSpan (span table), pooled tokenizer Get/Tokenize/Put} (symbolic choice), every interleaving at sync/atomic and mutex granularity with at most 2 preemptions: each call returns what it returns alone, and a happens-before monitor (vector clocks over go/Wait, mutex, atomic, Once and Pool edges) finds no unordered conflicting pair among all loads, stores and map operations of the target code",
+                   "thorough": "3 goroutines for the metrics kernel; the 2-goroutine mix over all 8 operations (adds Validate, Format, security scan); 3 goroutines over {metrics, suggestion cache, span table}"},
+        "outside": "REDUCED CLAIM. Not claimed: N up to 4x cores goroutines and arbitrary mixes (2-3 goroutines, one operation each, from the listed menu); schedules with more than 2 preemptions; races inside intrinsics' own state (sync.Pool internals, strings.Builder, fmt) and on whole-struct copies versus field writes (the monitor tracks the addressed cell); linting and extraction in the mix (their state is per call; isolation of instances is what C08/C09 establish sequentially); the Go memory model beyond sequentially consistent atomics",
         "assumptions": ["sequentially consistent atomics; scheduling points = sync/atomic operations, mutex operations, goroutine exit"],
         "runs": [
             {"pkg": "pkg/metrics", "harness": "VxC10_Metrics2", "tiers": ["quick", "thorough"], "engine_only_asserts": ["C10.operations", "C10.errors", "C10.bytes", "C10.min", "C10.max", "C10.error_map"], "expect_asserts": ["C10.bytes", "C10.min", "C10.max"]},
             {"pkg": "pkg/metrics", "harness": "VxC10_ParsePool2", "tiers": ["quick", "thorough"], "engine_only_asserts": ["C10.parse_ops", "C10.statements", "C10.pool"], "expect_asserts": ["C10.statements"]},
+            {"pkg": "pkg/sql/security", "harness": "VxC10_Race2", "tiers": ["quick"], "engine_only_asserts": ["C10.race", "C10.same_as_alone"], "expect_asserts": ["C10.same_as_alone"]},
+            {"pkg": "pkg/sql/security", "harness": "VxC10_Race2All", "tiers": ["thorough"], "engine_only_asserts": ["C10.race", "C10.same_as_alone"], "expect_asserts": ["C10.same_as_alone"], "thorough": {"timeout": 7200}},
+            {"pkg": "pkg/sql/security", "harness": "VxC10_Race3", "tiers": ["thorough"], "engine_only_asserts": ["C10.race", "C10.same_as_alone"], "thorough": {"timeout": 7200}},
             {"pkg": "pkg/metrics", "harness": "VxC10_Metrics3", "tiers": ["thorough"], "engine_only_asserts": ["C10.operations", "C10.errors", "C10.bytes", "C10.min", "C10.max", "C10.error_map"], "thorough": {"timeout": 7200}},
         ],
     },
